@@ -1191,7 +1191,8 @@ class GroupedStats:
             else:
                 group_stats = self.groups[group_key]
                 other_stats = other.groups[group_key]
-                for pivot_value in self.pivot_values:
+                # one cell per distinct pivot value, also when a value is listed twice
+                for pivot_value in group_stats:
                     for (stat, other_stat) in zip(
                             group_stats[pivot_value],
                             other_stats[pivot_value]
